@@ -893,7 +893,8 @@ def rule_window_size(facts, rid="C01.R4b"):
             else:
                 r.ok("provenance", {"fn": short(b.name), "dict_size": flow.show(a)[:60]})
     r.sites = n
-    r.need("constructions of the circular window (found %d)" % n, n >= 2)
+    # one in LzmaDecoder::decompress, one more in the streaming decoder (feature "stream")
+    r.need("constructions of the circular window (found %d)" % n, n >= (2 if "stream" in facts.features else 1))
     return r
 
 
